@@ -582,7 +582,7 @@ def _(I, ctx, r): return len(str_bytes(r)) == 0
 def _(I, ctx, r): deref(r).b.clear(); return UNIT
 @model('re:^(std::string::)?String::from_utf8_unchecked$')
 def _(I, ctx, v): return StrV(list(seq_items(v)))
-@model('std::str::from_utf8_unchecked', 'core::str::from_utf8_unchecked')
+@model('std::str::from_utf8_unchecked', 'core::str::from_utf8_unchecked', 'from_utf8_unchecked', 'std::str::from_utf8_unchecked_mut')
 def _(I, ctx, v):
     l, lo, hi = seq_view(v); return ValRef(SliceV(l, lo, hi, True))
 @model('re:^<(std::string::)?String as From<&str>>::from$', 're:^<str as ToOwned>::to_owned$', 're:^<str as ToString>::to_string$',
@@ -902,6 +902,10 @@ def _(I, ctx, it):
         for x in out: _hs_insert(I, ctx, ValRef(s), x)
         return s
     if tgt.startswith('Box<['): return VecV(out)
+    if re.match(r'^(std::collections::)?(Fnv)?HashMap<', tgt):
+        m = HMap()
+        for kv in out: _hm_insert(I, ctx, ValRef(m), kv.fields[0], kv.fields[1])
+        return m
     raise Unsupported('collect into ' + tgt)
 @model('re:^<.* as (std::io::)?Write>::write_all$')
 def _(I, ctx, w, buf):
